@@ -683,6 +683,10 @@ func execInBubble(w *World, plan *Plan, trace bool) {
 	s.mode = plan.P("sched_mode", 0)
 	s.sticky = uint32(plan.P("sticky", 80))
 	s.native = w.Native
+	// with unscheduled goroutines around, every blocking channel operation is a
+	// scheduling point (see the runtime patch): the schedule must not depend on
+	// whether a native worker was faster than its consumer
+	runtime.GosimAlwaysPostChan(len(w.Native) > 0)
 	s.disabled = plan.P("no_sched", 0) == 1
 	s.trace = os.Getenv("GOSIM_SCHEDTRACE") != ""
 	r := &Run{Plan: plan, World: w, Rng: rand.New(rand.NewSource(int64(mix(seed, 3)))),
